@@ -535,4 +535,178 @@ example :
        ⟨⟨106, 15, [12]⟩, true, 1, ⟨12, 1, true, some 0, false, [9]⟩, true⟩]       -- replay
       ).map (·.recs) = some [⟨5, 100, some 9⟩, ⟨9, 102, some 12⟩, ⟨12, 105, none⟩] := by decide
 
+/-! ## lifting to `validateSnapshotTransaction`
+
+Every proposed and every finalized snapshot enters through `validateSnapshotTransaction`, which
+finds each body either in the persistent store (written by an earlier proposal — possibly one
+that never finalized, validated against an older consensus head) or in the cache. The theorems
+below hold for every placement of the bodies and every answer of `tx.Validate` and of the
+lock: they rely on exactly one thing in the persisted branch — that the kernel snapshot rule
+is run again, against the *current* store, on the set of bodies found so far. Nothing is
+assumed about what was checked when the body was persisted. -/
+
+/-- the kernel snapshot rule let this set of found bodies through -/
+def KPass (c : Codes) (e : Env) (st : Store) (s : Snap) (self : Bool) (round : Nat) (fin : Bool)
+    (found : List Tx) : Prop :=
+  Passed (validateKernel c e st s self round found fin)
+
+theorem kernelStep_accept (c : Codes) (e : Env) (st : Store) (s : Snap) (self : Bool) (round : Nat)
+    (found : List Tx) (fin typeOk : Bool)
+    (h : kernelStep c e st s self round found fin typeOk = .accept) :
+    KPass c e st s self round fin found := by
+  unfold kernelStep at h
+  unfold KPass Passed
+  cases hk : validateKernel c e st s self round found fin <;> simp [hk] at h ⊢
+
+/-- the bodies that are found, in loop order -/
+def foundOf (items : List Item) : List Tx :=
+  (items.filter (fun it => it.loc != .absent)).map (·.tx)
+
+/-- loop invariant: an accepting run returns exactly the found bodies, and the kernel snapshot
+    rule passed on the complete found set (it is re-run after every addition) -/
+theorem vstLoop_accept (c : Codes) (e : Env) (st : Store) (s : Snap) (self : Bool) (round : Nat)
+    (fin typeOk : Bool) (items : List Item) (found : List Tx) (missing : Nat) (newly : List Nat)
+    (h : (vstLoop c e st s self round fin typeOk items found missing newly).decision = .accept)
+    (h0 : found = [] ∨ KPass c e st s self round fin found) :
+    (vstLoop c e st s self round fin typeOk items found missing newly).found = found ++ foundOf items ∧
+      ((vstLoop c e st s self round fin typeOk items found missing newly).found = [] ∨
+        KPass c e st s self round fin (vstLoop c e st s self round fin typeOk items found missing newly).found) := by
+  induction items generalizing found missing newly with
+  | nil => simp [vstLoop, foundOf]; exact h0
+  | cons it rest ih =>
+    unfold vstLoop at h ⊢
+    cases hl : it.loc with
+    | absent =>
+      simp only [hl] at h ⊢
+      have := ih found (missing + 1) newly h h0
+      simpa [foundOf, hl] using this
+    | persisted f =>
+      simp only [hl] at h ⊢
+      split at h
+      · simp at h
+      · next hc =>
+        simp only [hc, if_false] 
+        cases hk : kernelStep c e st s self round (found ++ [it.tx]) fin typeOk with
+        | accept =>
+          simp only [hk] at h ⊢
+          have := ih (found ++ [it.tx]) missing newly h (Or.inr (kernelStep_accept _ _ _ _ _ _ _ _ _ hk))
+          simpa [foundOf, hl, List.filter_cons] using this
+        | reject => simp [hk] at h
+        | panic => simp [hk] at h
+    | cached =>
+      simp only [hl] at h ⊢
+      split at h
+      · simp at h
+      · next hv =>
+        split at h
+        · simp at h
+        · next hvv =>
+          simp only [hv, hvv, if_false]
+          cases hk : kernelStep c e st s self round (found ++ [it.tx]) fin typeOk with
+          | accept =>
+            simp only [hk] at h ⊢
+            split at h
+            · simp at h
+            · next hlk =>
+              simp only [hlk, if_false]
+              have := ih (found ++ [it.tx]) missing (newly ++ [it.tx.hash]) h
+                (Or.inr (kernelStep_accept _ _ _ _ _ _ _ _ _ hk))
+              simpa [foundOf, hl, List.filter_cons] using this
+          | reject => simp [hk] at h
+          | panic => simp [hk] at h
+
+theorem vst_accept (c : Codes) (e : Env) (st : Store) (s : Snap) (self : Bool) (round : Nat)
+    (fin typeOk : Bool) (items : List Item)
+    (h : (validateSnapshotTx c e st s self round fin typeOk items).decision = .accept) :
+    (validateSnapshotTx c e st s self round fin typeOk items).found = foundOf items ∧
+      (foundOf items = [] ∨ KPass c e st s self round fin (foundOf items)) := by
+  have := vstLoop_accept c e st s self round fin typeOk items [] 0 [] h (Or.inl rfl)
+  unfold validateSnapshotTx
+  have h1 : (vstLoop c e st s self round fin typeOk items [] 0 []).found = foundOf items := by
+    simpa using this.1
+  refine ⟨h1, ?_⟩
+  have h2 := this.2
+  rw [h1] at h2
+  exact h2
+
+/-- **multi_tx_only_batchable, at `validateSnapshotTransaction`.** A snapshot with more than one
+    transaction that is accepted: every body found — persisted earlier or cached — is script /
+    deposit / withdrawal submit / withdrawal claim. -/
+theorem vst_multi_tx_only_batchable (c : Codes) (e : Env) (st : Store) (s : Snap) (self : Bool)
+    (round : Nat) (fin typeOk : Bool) (items : List Item) (hlen : s.txs.length > 1)
+    (h : (validateSnapshotTx c e st s self round fin typeOk items).decision = .accept) :
+    ∀ it ∈ items, it.loc ≠ .absent →
+      it.tx.ttype = c.tScript ∨ it.tx.ttype = c.tDeposit ∨
+        it.tx.ttype = c.tWithdrawalSubmit ∨ it.tx.ttype = c.tWithdrawalClaim := by
+  intro it hit hloc
+  have hm : it.tx ∈ foundOf items := by
+    unfold foundOf
+    exact List.mem_map.mpr ⟨it, List.mem_filter.mpr ⟨hit, by simpa using hloc⟩, rfl⟩
+  rcases (vst_accept c e st s self round fin typeOk items h).2 with h0 | hp
+  · rw [h0] at hm; simp at hm
+  · exact multi_tx_only_batchable c e st s self round (foundOf items) fin hlen hp it.tx hm
+
+/-- **consensus_alone, at `validateSnapshotTransaction`.** An accepted snapshot in which a mint,
+    membership or custodian body was found — wherever it was found — holds one transaction. -/
+theorem vst_consensus_alone (c : Codes) (hc : CodesOK c) (e : Env) (st : Store) (s : Snap)
+    (self : Bool) (round : Nat) (fin typeOk : Bool) (items : List Item) (it : Item)
+    (hit : it ∈ items) (hloc : it.loc ≠ .absent) (hcons : isConsensusType c it.tx.ttype = true)
+    (h : (validateSnapshotTx c e st s self round fin typeOk items).decision = .accept) :
+    s.txs.length ≤ 1 := by
+  have hm : it.tx ∈ foundOf items := by
+    unfold foundOf
+    exact List.mem_map.mpr ⟨it, List.mem_filter.mpr ⟨hit, by simpa using hloc⟩, rfl⟩
+  rcases (vst_accept c e st s self round fin typeOk items h).2 with h0 | hp
+  · rw [h0] at hm; simp at hm
+  · exact consensus_alone c hc e st s self round (foundOf items) fin it.tx hm hcons hp
+
+/-- **consensus_links_prev, at `validateSnapshotTransaction`.** A consensus operation accepted
+    alone — its body persisted by an earlier proposal or taken from the cache — has the
+    *currently* recorded last consensus transaction as first reference and a strictly later
+    snapshot timestamp (or is that last transaction again), outside the hard-coded mainnet
+    pre-fork exemption. -/
+theorem vst_consensus_links_prev (c : Codes) (e : Env) (st : Store) (s : Snap) (self : Bool)
+    (round : Nat) (fin typeOk : Bool) (it : Item) (hloc : it.loc ≠ .absent)
+    (hs : s.txs = [it.tx.hash])
+    (hfork : ¬ (fin = true ∧ e.mainnet = true ∧ s.ts < e.forkAt))
+    (hcons : isConsensusType c it.tx.ttype = true)
+    (h : (validateSnapshotTx c e st s self round fin typeOk [it]).decision = .accept) :
+    LinksPrev st e.hack s.ts it.tx := by
+  have hf : foundOf [it] = [it.tx] := by
+    unfold foundOf
+    have : (it.loc != .absent) = true := by simpa using hloc
+    simp [List.filter_cons, this]
+  rcases (vst_accept c e st s self round fin typeOk [it] h).2 with h0 | hp
+  · rw [hf] at h0; simp at h0
+  · rw [hf] at hp
+    exact kernel_consensus_links_prev c e st s self round it.tx fin hs hfork hcons hp
+
+/-- non-vacuity: a persisted deposit and a cached script are accepted together -/
+example : (validateSnapshotTx realCodes ⟨false, 0, none⟩ ⟨[⟨100, 5, [7]⟩], [⟨5, 100, none⟩]⟩
+    ⟨200, 9, [10, 11]⟩ true 1 false true
+    [⟨⟨10, 2, false, some 0, false, []⟩, .persisted none, false, false, false⟩,
+     ⟨⟨11, 0, false, some 0, false, []⟩, .cached, true, false, true⟩]).decision = .accept := by decide
+
+/-- the persisted, never finalized operation `8` (reference `7`) is rejected once the head has
+    moved to `9` … -/
+example : (validateSnapshotTx realCodes ⟨false, 0, none⟩
+    ⟨[⟨100, 5, [7]⟩, ⟨101, 9, [9]⟩], [⟨5, 100, some 9⟩, ⟨9, 101, none⟩]⟩
+    ⟨200, 12, [8]⟩ true 1 false true
+    [⟨⟨8, 1, true, some 0, false, [7]⟩, .persisted none, false, false, false⟩]).decision = .reject := by decide
+
+/-- **persisted_branch_must_revalidate.** … and the kernel snapshot rule is what rejects it:
+    the loop that trusts persisted bodies ("validated before it was persisted") accepts the
+    same stale operation alone, and accepts it inside a batch. -/
+theorem persisted_branch_must_revalidate :
+    (vstLoopTrusting realCodes ⟨false, 0, none⟩
+      ⟨[⟨100, 5, [7]⟩, ⟨101, 9, [9]⟩], [⟨5, 100, some 9⟩, ⟨9, 101, none⟩]⟩
+      ⟨200, 12, [8]⟩ true 1 false true
+      [⟨⟨8, 1, true, some 0, false, [7]⟩, .persisted none, false, false, false⟩] [] 0 []).decision = .accept ∧
+    (vstLoopTrusting realCodes ⟨false, 0, none⟩
+      ⟨[⟨100, 5, [7]⟩, ⟨101, 9, [9]⟩], [⟨5, 100, some 9⟩, ⟨9, 101, none⟩]⟩
+      ⟨201, 12, [8, 10]⟩ true 1 false true
+      [⟨⟨8, 1, true, some 0, false, [7]⟩, .persisted none, false, false, false⟩,
+       ⟨⟨10, 2, false, some 0, false, []⟩, .persisted none, false, false, false⟩] [] 0 []).decision = .accept := by
+  decide
+
 end Mixin.C28
